@@ -319,6 +319,9 @@ def gen_history(rng, nsurf=None, nedits=None, exotic=True, build_only=False, foc
     elif focus == 'asphere':
         weights.update(set_coeff=30, var=16, set_radius=22, pickup=14, update=8, remove=0, insert=0, invalid=0)
     pk_edges = {}             # target quantity -> source quantity
+    # an explicit ImageSurface object never refracts (its material_post is not used): index edits on the surface in
+    # front of it would only make its two recorded media differ, which no paraxial quantity depends on; not generated
+    img_obj = 1 if any(o_[0] == 'add_obj' and o_[2] == 'image' for o_ in ops) else 0
     structural = False        # after a middle insertion / removal only the stop / wavelength clauses are claimed
     for _ in range(ne):
         kind = rng.choices(list(weights), weights=list(weights.values()))[0]
@@ -332,7 +335,7 @@ def gen_history(rng, nsurf=None, nedits=None, exotic=True, build_only=False, foc
             k = rng.randrange(0, n - 1)
             ops.append(['set_thickness', rng.uniform(0.5, 40.0), k])
         elif kind == 'set_index':
-            ops.append(['set_index', rng.uniform(1.3, 1.95), rng.randrange(0, n - 1)])
+            ops.append(['set_index', rng.uniform(1.3, 1.95), rng.randrange(0, max(1, n - 1 - img_obj))])
         elif kind == 'set_coeff':
             if evens and not structural:
                 k = rng.choice(evens)
@@ -352,7 +355,7 @@ def gen_history(rng, nsurf=None, nedits=None, exotic=True, build_only=False, foc
                 ops.append(['var', vk, rng.randrange(0, n - 1), scaled, v, None])
             elif vk == 'index':
                 v = rng.uniform(-0.2, 0.4) if scaled else rng.uniform(1.3, 1.95)
-                ops.append(['var', vk, rng.randrange(0, n - 1), scaled, v, W0])
+                ops.append(['var', vk, rng.randrange(0, max(1, n - 1 - img_obj)), scaled, v, W0])
             elif vk == 'asphere_coeff':
                 if evens and not structural:
                     k = rng.choice(evens)
@@ -1023,6 +1026,8 @@ def independent_marginal(o):
         return None
     if any(abs(p_['y']) > 0 for p_ in ps) or len(ps) < 2:
         return None
+    if type(o.surface_group.surfaces[-1]).__name__ == 'ImageSurface':
+        ps[-1]['npost'] = ps[-1]['npre']          # an ImageSurface only records the rays (its material_post is never used)
     try:
         q = oracles.abcd_quantities(ps, o.aperture.ap_type, float(o.aperture.value), 'angle', 0.0)
     except Exception:     # noqa
@@ -1054,7 +1059,8 @@ def solve_violation(o, svs, pks, stage):
     yi = independent_marginal(o)
     if yi is not None:
         for si, (idx, h) in enumerate(svs):
-            if idx < len(yi) and not feq(yi[idx], h, 1e-6) and feq(ya[idx], h, 1e-7):
+            scale = max([abs(v) for v in yi] + [abs(v) for v in ya if v == v] + [1.0])
+            if idx < len(yi) and abs(yi[idx] - h) > 1e-6 * scale and feq(ya[idx], h, 1e-7):
                 return {'clause': 'solve-height', 'solve': [idx, h], 'stage': stage, 'got': yi[idx], 'independent_ray': True,
                         'library_ray_height': ya[idx], 'aperture': [o.aperture.ap_type, float(o.aperture.value)],
                         'object_index': f1(o.surface_group.surfaces[0].material_post.n(W0)), 'solves': svs,
